@@ -57,9 +57,10 @@ class EOFBootstrapper(_BaseBootstrapper, EOF):
         self.model = model
         self.preprocessor = model.preprocessor
         sample_name = model.sample_name
+        feature_name = model.feature_name
 
         input_data = model.data["input_data"]
-        n_samples = input_data.sample.size
+        n_samples = input_data[sample_name].size
 
         model_params = model.get_params()
         n_modes: int = model_params["n_modes"]
@@ -84,8 +85,14 @@ class EOFBootstrapper(_BaseBootstrapper, EOF):
             bst_data = bst_data.assign_coords({sample_name: input_data[sample_name]})
             # Perform EOF analysis with the subsampled data
             # No scaling because we use the pre-scaled data from the model
-            bst_model = EOF(n_modes=n_modes, standardize=False, use_coslat=False)
-            bst_model.fit(bst_data, dim="sample")
+            bst_model = EOF(
+                n_modes=n_modes,
+                standardize=False,
+                use_coslat=False,
+                sample_name=sample_name,
+                feature_name=feature_name,
+            )
+            bst_model.fit(bst_data, dim=sample_name)
             # Save results
             expvar = bst_model.data["explained_variance"]
             totvar = bst_model.data["total_variance"]
@@ -114,9 +121,9 @@ class EOFBootstrapper(_BaseBootstrapper, EOF):
         # NOTE: we use scores as they have typically a lower dimensionality than components
         model_scores = model.data["scores"]
         corr = (
-            (bst_scores * model_scores).mean("sample")
-            / bst_scores.std("sample")
-            / model_scores.std("sample")
+            (bst_scores * model_scores).mean(sample_name)
+            / bst_scores.std(sample_name)
+            / model_scores.std(sample_name)
         )
         signs = np.sign(corr)
         bst_components = bst_components * signs
